@@ -151,7 +151,9 @@ func (t *TopicStats) Add(a *TopicStats) {
 			Topic: t.TopicName,
 		}
 	}
-	t.E2eProcessingLatency.Add(a.E2eProcessingLatency)
+	if a.E2eProcessingLatency != nil {
+		t.E2eProcessingLatency.Add(a.E2eProcessingLatency)
+	}
 }
 
 type ChannelStats struct {
@@ -207,7 +209,9 @@ func (c *ChannelStats) Add(a *ChannelStats) {
 			Channel: c.ChannelName,
 		}
 	}
-	c.E2eProcessingLatency.Add(a.E2eProcessingLatency)
+	if a.E2eProcessingLatency != nil {
+		c.E2eProcessingLatency.Add(a.E2eProcessingLatency)
+	}
 	c.Clients = append(c.Clients, a.Clients...)
 	sort.Sort(ClientsByHost{c.Clients})
 }
